@@ -1,0 +1,21 @@
+//go:build verif
+
+// Contracts for govc (see /verif/DESIGN.md). Comment-only file: no executable code.
+
+package state
+
+//@ property C11 C37
+//@ smt all (declare-fun wc_bts (Iface) W64)
+//@ smt all (declare-fun wc_txth (Iface) W64)
+
+//@ func (c WorldContext) BlockTimeStamp() (ts)
+//@   iface
+//@   trusted
+//@   pure
+//@   ensures ts == int64(wc_bts(c))
+
+//@ func (c WorldContext) TransactionTimestampThreshold() (th)
+//@   iface
+//@   trusted
+//@   pure
+//@   ensures th == int64(wc_txth(c))
